@@ -580,6 +580,25 @@ func (r *histRun) mutate(i int, op M) {
 		}
 	case "compact":
 		cw := dsvc.NewCompactor(r.h.Store, r.h.Dsm, quietLogger())
+		if race, ok := op["race"].(map[string]interface{}); ok {
+			// forced schedule (C12): a writer commits between the compactor's snapshot and its n-th flush
+			inner := race["inner"].(map[string]interface{})
+			ran := false
+			server.VerifAtPoint("flushDeletes:0:begin", geti(race, "hit"), func() {
+				ran = true
+				r.mutate(i, inner)
+			})
+			defer func() {
+				server.VerifAtPoint("", 0, nil)
+				op["raced"] = ran
+				if ran {
+					if t, ok := inner["t"]; ok {
+						op["t"] = t // the commit time of this history step is the writer's
+					}
+					r.c.Count("c12.writer-inside-compaction", 1)
+				}
+			}()
+		}
 		if err := cw.VerifCompact(gets(op, "ds"), geti(op, "threshold")); err != nil {
 			op["rc"] = "err"
 		}
@@ -1096,6 +1115,25 @@ func genStore(c *Ctx, profile string) {
 					ops = append(ops, M{"op": "dup", "ds": ds, "id": g.ids[c.Rng.Intn(len(g.ids))]})
 				} else {
 					cop := M{"op": "compact", "ds": ds, "threshold": []int{1, 2, 3, 100000}[c.Rng.Intn(4)]}
+					if c.Rng.Intn(3) == 0 {
+						// a writer commits while the compactor runs (after its snapshot, before its n-th flush); often the
+						// written entity is one whose newest version is a legacy duplicate (its latest pointer is re-pointed)
+						id := g.ids[c.Rng.Intn(len(g.ids))]
+						ents := g.batch()
+						if c.Rng.Intn(3) != 0 {
+							ops = append(ops, M{"op": "dup", "ds": ds, "id": id})
+							ents = append([]M{g.entity(id)}, ents...)
+						}
+						cop["race"] = M{"hit": 1 + c.Rng.Intn(3), "inner": M{"op": "store", "ds": ds, "ents": ents}}
+						ops = append(ops, cop)
+						ops = append(ops, M{"op": "q", "q": "list", "ds": ds, "pages": []int{0}},
+							M{"op": "q", "q": "changes", "ds": ds, "since": 0, "limits": []int{0}, "latestOnly": true},
+							M{"op": "q", "q": "entity", "id": id, "scope": []string{ds}})
+						for q := 0; q < 1+c.Rng.Intn(3); q++ {
+							ops = append(ops, g.queries(len(ops), nops)...)
+						}
+						continue
+					}
 					if pts := crashPts.Points["flushDeletes"]; len(pts) > 1 && c.Rng.Intn(3) == 0 {
 						// the compactor is killed right after its n-th flush (or right before its first)
 						cop = M{"op": "crash", "point": pts[c.Rng.Intn(len(pts))], "hit": 1 + c.Rng.Intn(3), "inner": cop}
